@@ -11,7 +11,7 @@ from sa.cf import cfg_of
 from sa.pm import FuncInfo, call_name, norm, self_attr, walk_local_ordered
 from sa.report import Ob, rule
 
-from .common import attr_stores, ob, strip_ret, traces
+from .common import attr_stores, expand, inline_helpers, ob, strip_ret, traces
 
 OUT = 'zeroconf._protocol.outgoing.DNSOutgoing'
 OM = 'zeroconf._protocol.outgoing'
@@ -264,6 +264,75 @@ def limit(ctx: Any) -> List[Ob]:
     return obs
 
 
+def _section_offsets(pk: FuncInfo) -> Dict[str, str]:
+    """offset variable of packets() -> the list attribute whose writer is started at that offset."""
+    me = pk.params[0]
+    out: Dict[str, str] = {}
+    for st in walk_local_ordered(pk.node):
+        if isinstance(st, ast.Assign) and isinstance(st.value, ast.Call) and call_name(st.value).startswith('_write_') and isinstance(st.targets[0], ast.Name):
+            c = st.value
+            if call_name(c) == '_write_records_from_offset' and len(c.args) == 2:
+                out[norm(c.args[1])] = self_attr(c.args[0], me) or '?'
+            elif len(c.args) == 1:
+                out[norm(c.args[0])] = {'_write_questions_from_offset': 'questions', '_write_answers_from_offset': 'answers'}.get(call_name(c), '?')
+    return out
+
+
+def _remains_value(prog: Any, pk: FuncInfo, e: ast.AST, remain: Set[str], offs: Dict[str, str]) -> Optional[bool]:
+    """Truth of `e` (single-definition locals expanded, one-expression helpers inlined) when exactly the sections in `remain`
+    still have entries to write; None when `e` is not a boolean combination of `offset < len(self.<list>)` tests on matching pairs."""
+    me = pk.params[0]
+    x = inline_helpers(prog, pk, expand(pk, e))
+
+    def ev(n: ast.AST) -> Optional[bool]:
+        if isinstance(n, ast.BoolOp):
+            vals = [ev(v) for v in n.values]
+            if any(v is None for v in vals):
+                return None
+            return all(vals) if isinstance(n.op, ast.And) else any(vals)
+        if isinstance(n, ast.UnaryOp) and isinstance(n.op, ast.Not):
+            v = ev(n.operand)
+            return None if v is None else not v
+        if isinstance(n, ast.Compare) and len(n.ops) == 1:
+            seen: Dict[str, str] = {}
+
+            def sym(t: ast.AST) -> Optional[str]:
+                if isinstance(t, ast.Call) and norm(t.func) == 'len' and len(t.args) == 1 and self_attr(t.args[0], me):
+                    seen['l'] = self_attr(t.args[0], me) or ''
+                    return 'LEN'
+                if isinstance(t, ast.Name):
+                    seen['o'] = t.id
+                    return 'OFF'
+                return None
+
+            try:
+                c = lf.comparison(prog, pk.module, n, sym)
+            except lf.NotLinear:
+                return None
+            if 'l' not in seen or 'o' not in seen or offs.get(seen['o']) != seen['l']:
+                return None
+            if lf.same_cmp(c, lf.parse_cmp('OFF - LEN < 0')):
+                return seen['l'] in remain
+            if lf.same_cmp(c, lf.parse_cmp('LEN - OFF <= 0')):
+                return seen['l'] not in remain
+        return None
+
+    return ev(x)
+
+
+def _continuation(pk: FuncInfo) -> Optional[ast.AST]:
+    """The expression that decides whether packets() goes round again: the test of its while loop, or, when that is a
+    local, the value the loop body assigns to it."""
+    loops = [n for n in walk_local_ordered(pk.node) if isinstance(n, ast.While)]
+    if len(loops) != 1:
+        return None
+    t = loops[0].test
+    if isinstance(t, ast.Name):
+        defs = [st.value for st in walk_local_ordered(loops[0]) if isinstance(st, ast.Assign) and len(st.targets) == 1 and isinstance(st.targets[0], ast.Name) and st.targets[0].id == t.id]
+        return defs[-1] if len(defs) == 1 else None
+    return t
+
+
 SECTIONS = [('questions', '_write_questions_from_offset'), ('answers', '_write_answers_from_offset'), ('authorities', '_write_records_from_offset'), ('additionals', '_write_records_from_offset')]
 
 
@@ -342,45 +411,20 @@ def sections(ctx: Any) -> List[Ob]:
         rets = [r for r in walk_local_ordered(w.node) if isinstance(r, ast.Return)]
         cnt_var = next((norm(n.target) for n in walk_local_ordered(w.node) if isinstance(n, ast.AugAssign)), '?')
         obs.append(ob(R, w, 'if not self._write_...(x): break; written += 1', 'an entry is counted only after it was written and the section stops at the first entry that does not fit', g1 and g2 and len(rets) == 1 and norm(rets[0].value) == cnt_var, f'success {sorted(map(str, oc_ok))} failure {sorted(map(str, oc_fail))}'))
-    # more-to-add
-    hm = out.methods['_has_more_to_add']
-    e = [r.value for r in walk_local_ordered(hm.node) if isinstance(r, ast.Return)][0]
-    pairs = set()
-    ok_hm = isinstance(e, ast.BoolOp) and isinstance(e.op, ast.Or)
-    if ok_hm:
-        for v in e.values:
-            found = None
-            if isinstance(v, ast.Compare) and len(v.ops) == 1:
-                seen_len: Dict[str, str] = {}
+    # more-to-add: the loop goes round again exactly when some section still has entries to write
+    import itertools
 
-                def sym(x: ast.AST) -> Optional[str]:
-                    if isinstance(x, ast.Call) and norm(x.func) == 'len' and len(x.args) == 1:
-                        a = self_attr(x.args[0], hm.params[0])
-                        if a:
-                            seen_len['l'] = a
-                            return 'LEN'
-                    if isinstance(x, ast.Name):
-                        seen_len['o'] = x.id
-                        return 'OFF'
-                    return None
-
-                try:
-                    pp, op_ = lf.comparison(prog, hm.module, v, sym)
-                    if lf.same_cmp((pp, op_), lf.parse_cmp('OFF - LEN < 0')) and 'l' in seen_len and 'o' in seen_len:
-                        found = (seen_len['o'], seen_len['l'])
-                except lf.NotLinear:
-                    pass
-            if found:
-                pairs.add(found)
-            else:
-                ok_hm = False
-    call = [c for c in body if isinstance(c, ast.Call) and call_name(c) == '_has_more_to_add']
-    want_pairs = set()
-    if call:
-        for p_, a in zip(hm.params[1:], call[0].args):
-            lst = next((v[1] for v in written.values() if v[2] == norm(a)), '?')
-            want_pairs.add((p_, lst))
-    obs.append(ob(R, hm, e, 'more remains iff some section offset is below the length of that same section\'s list', ok_hm and pairs == want_pairs and len(pairs) == 4, f'compares {sorted(pairs)}; expected {sorted(want_pairs)}'))
+    offs = _section_offsets(pk)
+    cont = _continuation(pk)
+    lists = ['questions', 'answers', 'authorities', 'additionals']
+    bad_rows = []
+    if cont is not None and sorted(offs.values()) == sorted(lists):
+        for k in range(5):
+            for sub in itertools.combinations(lists, k):
+                v = _remains_value(prog, pk, cont, set(sub), offs)
+                if v is None or v != bool(sub):
+                    bad_rows.append((list(sub), v))
+    obs.append(ob(R, pk, cont if cont is not None else 'while has_more_to_add', 'packets() goes round again iff some section offset is below the length of that same section\'s list (all four sections)', cont is not None and sorted(offs.values()) == sorted(lists) and not bad_rows, f'remaining sections {bad_rows[0][0]} -> {bad_rows[0][1]}' if bad_rows else f'offsets {offs}'))
     # the message is marked finished only when everything has been written: an entry writer can raise (a label that cannot be
     # encoded); marking first would make every later call hand out the partial sequence (TC on its last datagram, entries missing)
     pk0 = prog.cls(OUT).methods['packets']
@@ -422,17 +466,26 @@ def tc(ctx: Any) -> List[Ob]:
                     res.append('ID:' + t)
         return res
 
-    for more in (True, False):
+    offs = _section_offsets(pk)
+    # what remains is stated per section: every test `offset < len(self.<list>)` and every one-expression helper over such
+    # tests that packets() evaluates gets its value from the scenario
+    probes = [n for n in walk_local_ordered(pk.node) if isinstance(n, (ast.Compare, ast.Call)) and _remains_value(prog, pk, n, set(), offs) is not None]
+    if not probes:
+        raise AnalysisError('packets(): no test of the form `offset < len(self.<section list>)` found')
+    for remain in ([], ['questions'], ['answers'], ['authorities'], ['additionals']):
+        more = bool(remain)
         for query in (True, False):
             for mc in (True, False):
-                atoms = {'._has_more_to_add()': more, '.is_query()': query, f'{me}.multicast': mc, f'{me}.state': 0, 'LOGGING_IS_ENABLED_FOR()': False, '.data': [b'x']}
+                atoms = {'.is_query()': query, f'{me}.multicast': mc, f'{me}.state': 0, 'LOGGING_IS_ENABLED_FOR()': False, '.data': [b'x']}
+                for n in probes:
+                    atoms[norm(n)] = _remains_value(prog, pk, n, set(remain), offs)
                 oc, und = traces(ctx, pk, atoms, eff, loop_bound=1)
                 first = set()
                 for t in oc:
                     seq = [x for x in strip_ret(t) if isinstance(x, str)]
                     first.add(tuple(seq[:2]))
                 want = ('FLAGS|TC' if (more and query) else 'FLAGS', 'ID:0' if mc else f'ID:{me}.id')
-                obs.append(ob(R, pk, f'more={more} query={query} multicast={mc}', f'flags word {want[0]}, id {want[1]}', first == {want}, f'got {sorted(first)}'))
+                obs.append(ob(R, pk, f'remaining={remain or None} query={query} multicast={mc}', f'flags word {want[0]}, id {want[1]}', first == {want}, f'got {sorted(first)}'))
     return obs
 
 
